@@ -384,6 +384,9 @@ class C20Oracle(Oracle):
     def before(self, op, pre):
         self._tags = structural_tags(self.w, op)
         self._exists = op.get("value") in self.w.tracks.graph if op["op"] == "paint" else None
+        ah = self.w.tracks.action_history
+        # is there something to undo / redo? (position in the history before the call)
+        self._todo = {"undo": len(ah.undo_stack) - len(ah.redo_stack) > 0, "redo": len(ah.redo_stack) > 0}
 
     def after(self, op, out, pre, post):
         kind = op["op"]
@@ -392,6 +395,10 @@ class C20Oracle(Oracle):
         n = len(out.emitted)
         if kind in ("undo", "redo"):
             if not out.ok:
+                return
+            if self._todo[kind] and n != 1:
+                self.rep(f"emissions:{kind}:something_to_{kind}",
+                         f"{kind}() with an entry to {kind} in the history emitted {n} refresh signals (returned {out.result!r})")
                 return
             exp = 1 if out.result else 0
             if n != exp:
